@@ -23,6 +23,7 @@ import (
 func init() {
 	cf := "internal/backends/compiler_wat/compile_func.go"
 	register(&Property{ID: "C16", Run: runC16, Mutants: []Mutant{
+		{Name: "missingMethod exits early for interface operands too", File: "internal/types/lookup.go", Old: "\t\t\tif _, isIface := V.Underlying().(*Interface); !isIface {\n\t\t\t\treturn T.allMethods[0], false\n\t\t\t}\n", New: "\t\t\treturn T.allMethods[0], false\n", Expect: "type-branch-not-shadowed"},
 		{Name: "struct equality emits nothing for a type without fields", File: "internal/backends/compiler_wat/wir/value_struct.go", Old: "\tif len(v.typ.fields) == 0 {\n\t\tinsts = append(insts, wat.NewInstConst(wat.I32{}, \"1\"))\n\t}\n", New: "", Expect: "memberless-compare-handled :: aStruct.emitEq"},
 		{Name: "signature key loses the separator between parameters and results", File: "internal/backends/compiler_wat/wir/value_closure.go", Old: "\tn += \"$$\"\n", New: "", Expect: "signature-key-separated"},
 		{Name: "Convert sanity check reads the operand type without Underlying()", File: "internal/ssa/sanity.go", Old: "if _, ok := instr.X.Type().Underlying().(*types.Basic); !ok {", New: "if _, ok := instr.X.Type().(*types.Basic); !ok {", Expect: "sanity-convert-symmetric"},
@@ -57,7 +58,7 @@ func runC16(c *Ctx) {
 		"(6) target-sibling-signature: a symbol defined by several per-target runtime files has the same parameter and result types in all of them; (7) the loader keeps ssa.SanityCheckFunctions. " +
 		"NOT decided: validity of the emitted module (typing of operand stacks, argument counts at call sites), combinations of language features, the fatal 'Todo' paths inside arms (inventoried as the unsupported set)."
 	c.Trusted = []string{"go/packages, go/types (x/tools v0.29.0)", "the repository's own Wa parser and build-tag evaluator as front end for .wa sources (a change that breaks them makes this check fail, not pass)", "own WAT s-expression reader (watsrc.go)"}
-	p := c.Load(LoadOpt{Light: true}, "./internal/backends/compiler_wat/...", "./internal/ssa", "./internal/config", "./internal/loader", "./waroot/src")
+	p := c.Load(LoadOpt{Light: true}, "./internal/backends/compiler_wat/...", "./internal/ssa", "./internal/config", "./internal/loader", "./internal/types", "./waroot/src")
 	bk := p.MustPkg("ir-exhaustive", "internal/backends/compiler_wat")
 	ssap := p.MustPkg("ir-exhaustive", "internal/ssa")
 	cfgp := p.MustPkg("backend-call-linkage", "internal/config")
@@ -76,6 +77,12 @@ func runC16(c *Ctx) {
 	}
 	c16Linkage(c, p, cfgp)
 	c16FatalInventory(c, p)
+	// the type checker is loaded with the loader (a dependency); its package is in p.All
+	if tp := p.Pkg("internal/types"); tp != nil {
+		c16TypeBranchShadow(c, p, tp)
+	} else {
+		c.Undecided("type-branch-not-shadowed", "anchor:internal/types", "", "package not loaded")
+	}
 }
 
 // ---------- (1) IR exhaustiveness
